@@ -167,7 +167,7 @@ structure SnvLine where
   pq : List (Option Int)                      -- FORMAT/PQ per sample (`none` is printed as the text `None`)
   sdp : List (Option Rat)                     -- FORMAT/DP per sample
   ds : List (List (Option Rat))               -- FORMAT/DS per sample, A entries
-  deriving Repr
+  deriving Repr, DecidableEq
 
 def sumOpt (l : List (Option Rat)) : Option Rat :=
   l.foldr (fun x acc => match x, acc with | some a, some b => some (a + b) | _, _ => none) (some 0)
